@@ -244,7 +244,18 @@ def judge(case):
     ns = env.reset(ir.resolve_p(case["p"]), 16, R)
     rt, rec = ns.rt, ns.rec
     info = {"calls": len(case["calls"])}
+    # ONE decorated function serves every call of the case (a decorator's own state lives as long as the function does)
+    current = {}
+    shared = rt.snark(lambda *a: current["body"](*a)) if case.get("one_wrapper") else None
     for ci, call in enumerate(case["calls"]):
+        if call.get("poison"):
+            # a call that is refused part-way: an ordinary float followed by one that has no fixed-point value; caught
+            current["body"] = lambda *a: a[0]
+            try:
+                (shared or rt.snark(current["body"]))(0.75, [1.25, float(call["poison"])], 2)
+            except (ValueError, OverflowError):
+                pass
+            continue
         args = build_args(call["args"])
         argstruct = ["tuple", resolve_same(call["args"])]
 
@@ -284,15 +295,19 @@ def judge(case):
             fn = scope["f"]
         else:
             fn = traced_body
+        snark_ = rt.snark
+        if shared is not None and not defaults:
+            current["body"] = fn
+            snark_ = lambda f: shared
         try:
             if g is None:
-                got = rt.snark(fn)(*args)
+                got = snark_(fn)(*args)
             else:
                 # the call sits in a region guarded by a secret condition: what becomes public cannot depend on its value
                 box = {}
 
                 def region():
-                    box["got"] = rt.snark(fn)(*args)
+                    box["got"] = snark_(fn)(*args)
                     return rt.PrivVal(0)
                 rt.guarded(rt.PrivVal(g))(region)()
                 got = box["got"]
@@ -372,16 +387,22 @@ def shard(seed, n_examples):
                           "guard": draw(st.sampled_from([None, None, None, 0, 1]))})
             if not calls[-1]["kwargs"] and draw(st.integers(0, 3)) == 0:
                 calls[-1]["defaults"] = draw(st.lists(st.sampled_from([5, 2.5, True, [1, 2], {"k": 3}, None, "s", 0]), min_size=1, max_size=2))
-        case = {"p": draw(st.sampled_from(sorted(REAL_FIELDS))), "calls": calls}
+        if draw(st.integers(0, 2)) == 0:
+            calls.insert(draw(st.integers(0, len(calls) - 1)), {"poison": draw(st.sampled_from(["nan", "inf", "-inf"]))})
+        case = {"p": draw(st.sampled_from(sorted(REAL_FIELDS))), "calls": calls, "one_wrapper": draw(st.booleans())}
         msg, info = judge(case)
         nt = bool(info.get("mixed")) or (len(calls) >= 2 and info.get("out", 0) >= 1)
         labels = ["calls:%d" % len(calls)]
         if info.get("mixed"):
             labels.append("mixed-types")
-        if any(c["kwargs"] for c in calls):
+        if any(c.get("kwargs") for c in calls):
             labels.append("kwargs")
         if any(c.get("defaults") for c in calls):
             labels.append("default-parameters-left-alone")
+        if any(c.get("poison") for c in calls):
+            labels.append("refused-call-in-the-history")
+        if case["one_wrapper"]:
+            labels.append("one-decorated-function-for-all-calls")
         for c in calls:
             if c.get("guard") is not None:
                 labels.append("call-under-guard:%d" % c["guard"])
